@@ -262,12 +262,20 @@ class Index:
                 tgts = node.targets if isinstance(node, ast.Assign) else [node.target]
                 if node.value is None:
                     continue
+                pairs = []
                 for t in tgts:
                     if isinstance(t, ast.Name):
-                        mod.const_nodes[t.id] = node.value
-                        val = self._eval_const(node.value, mod.consts, mod)
-                        if val is not None:
-                            mod.consts[t.id] = val
+                        pairs.append((t.id, node.value))
+                    elif isinstance(t, (ast.Tuple, ast.List)) and isinstance(node.value, (ast.Tuple, ast.List)) and len(t.elts) == len(node.value.elts):
+                        pairs += [(e.id, v) for e, v in zip(t.elts, node.value.elts) if isinstance(e, ast.Name)]
+                    elif isinstance(t, (ast.Tuple, ast.List)) and isinstance(node.value, ast.Call) and isinstance(node.value.func, ast.Name) and node.value.func.id == "range" \
+                            and len(node.value.args) == 1 and isinstance(node.value.args[0], ast.Constant):
+                        pairs += [(e.id, ast.Constant(value=i)) for i, e in enumerate(t.elts) if isinstance(e, ast.Name)]
+                for name_, value_ in pairs:
+                    mod.const_nodes[name_] = value_
+                    val = self._eval_const(value_, mod.consts, mod)
+                    if val is not None:
+                        mod.consts[name_] = val
 
     def _is_module_path(self, dotted):
         p = os.path.join(self.repo, *dotted.split("."))
